@@ -53,6 +53,11 @@ type vfPlainMeter struct {
 func (m *vfPlainMeter) Rating() float64 { return float64(m.failed) }
 func (m *vfPlainMeter) Record(code int, d time.Duration) {
 	m.n++
+	if !verifSymbolic() {
+		// natively (replay under the race detector) a meter that takes its time: the other
+		// goroutine's critical section then falls inside this call often enough to be seen
+		time.Sleep(20 * time.Microsecond)
+	}
 	if code >= 500 {
 		m.failed++
 	}
